@@ -925,7 +925,7 @@ fn parser_steps(g: &mut Gen) -> Vec<Value> {
       }
       _ => {}
     }
-    let via = g.pick(&["json", "slice", "reader"]);
+    let via = g.pick(&["json", "slice", "reader", "reader1", "reader7"]);
     steps.push(json!({"op": "parse", "via": via, "b": bytes_json(&b)}));
   }
   // a dictionary of what tools put around JSON documents: XSSI guards,
@@ -953,7 +953,7 @@ fn parser_steps(g: &mut Gen) -> Vec<Value> {
       }
       _ => b.extend((0..g.rng.gen_range(0..6)).map(|_| g.rng.gen::<u8>())),
     }
-    let via = g.pick(&["json", "slice", "reader"]);
+    let via = g.pick(&["json", "slice", "reader", "reader1", "reader7"]);
     steps.push(json!({"op": "parse", "via": via, "b": bytes_json(&b)}));
   }
   steps
